@@ -24,6 +24,7 @@ def formulas(tier):
         "y ~ poly(x, 2, raw=True)", "y ~ center(x):center(z)", "y ~ C(k) + x", "y ~ C(g, Sum)", "y ~ (x|g)", "y ~ (1|g) + (0 + f|g)", "y ~ (center(x)|g:f)",
         "f ~ x", "g[t] ~ x + f", "y ~ I(x * z) + binary(f, 'a')", "y ~ x + offset(z)", "y ~ I(x * 2)", "y ~ binary(f, 'a')",
         "y ~ less(x, by=z)", "y ~ center(x=z) + f",  # data columns passed by keyword
+        "1", "1 + offset(2)",  # nothing is taken from the frame
     ]
     if tier != "quick":
         f += ["y ~ x*f*g", "y ~ standardize(z):g", "y ~ (x + z|g) + (1|f)", "y ~ T(g, 't') + S(f)", "y ~ h + x:h", "y ~ scale(center(x))", "y ~ (scale(x)|g)", "y ~ C(k, levels=lv):x"]
@@ -35,7 +36,7 @@ def formulas(tier):
 CONCRETE = ["y ~ bs(x, df=4)", "y ~ bs(x, df=6, degree=2) + f", "y ~ (bs(x, df=5)|g)", "y ~ bs(x, df=7, intercept=True):f"]
 
 
-TRANSFORMS_Q = ["perm:reverse", "perm:rotate", "perm:scramble", "index:shuffled", "index:dup", "index:str", "index:float", "cols:reversed", "unused:nan", "unused:one", "na+index:dup"]
+TRANSFORMS_Q = ["perm:reverse", "perm:rotate", "perm:scramble", "index:shuffled", "index:dup", "index:str", "index:float", "cols:reversed", "unused:nan", "unused:one", "na+index:dup", "unused:duplabel", "unused:removed"]
 
 
 def cases(tier):
@@ -133,6 +134,8 @@ def harness(env, case):
     vars_ = gen.used_vars(formula)
     concrete = formula in CONCRETE
     df, rows = gen.build_frame(env, vars_, flavour, "sorted", min_rows=12, concrete=concrete) if concrete else gen.build_frame(env, vars_, flavour, "sorted", min_rows=5)
+    if df.shape[1] == 0:
+        df = pd.DataFrame({"unused0": [1.5] * 5})  # a formula without variables: the frame only says how many rows there are
     n = len(df)
     ns = {"lv": [2, 3, 1], "less": _less}
     if "z" in df:
@@ -178,6 +181,14 @@ def harness(env, case):
         variants.append((d2, None))
     elif kind == "cols":
         variants.append((base[list(base.columns)[::-1]], None))
+    elif kind == "unused" and arg == "duplabel":
+        # two bookkeeping columns with the same label, as a concat / merge of two tables leaves them
+        extra = pd.DataFrame({"rowid": list(range(n))})
+        variants.append((pd.concat([extra, base.reset_index(drop=True), extra], axis=1), None))
+    elif kind == "unused" and arg == "removed":
+        # only the columns the formula mentions (none at all for a formula without variables)
+        keep = [c for c in base.columns if c in vars_]
+        variants.append((base[keep], None))
     elif kind == "unused":
         d2 = base.copy()
         d2.insert(0, "unused1", [float("nan") if i % 3 == 0 else 1.0 for i in range(n)])
